@@ -124,6 +124,27 @@ impl OpCode {
     }
 }
 
+/// Opcode table for the verification harness: (byte, name, operand widths), from the real tables.
+#[cfg(feature = "verif")]
+pub(crate) fn verif_opcodes() -> Vec<(u8, String, Vec<usize>)> {
+    (0..=OpCode::Halt as u8)
+        .map(|b| {
+            let op = OpCode::from(b);
+            (b, op.to_string(), op.operands().to_vec())
+        })
+        .collect()
+}
+
+/// Total operand length in bytes of the opcode `byte`, or None if `byte` is not an opcode.
+#[cfg(feature = "verif")]
+#[inline]
+pub(crate) fn verif_operand_len(byte: u8) -> Option<usize> {
+    if byte > OpCode::Halt as u8 {
+        return None;
+    }
+    Some(OpCode::from(byte).operands().iter().sum())
+}
+
 pub struct Bytecode {
     pub constants: Vec<Object>,
     pub instructions: Vec<u8>,
@@ -192,6 +213,24 @@ impl Compiler {
             constants: self.constants.clone(),
             instructions: std::mem::take(&mut self.instructions),
         })
+    }
+
+    /// Canonical text of everything this compiler retains between calls (verification harness only).
+    #[cfg(feature = "verif")]
+    pub fn verif_fingerprint(&self) -> String {
+        let constants: Vec<String> = self
+            .constants
+            .iter()
+            .map(|c| crate::verif::render(*c))
+            .collect();
+        format!(
+            "symbols={} constants=[{}] pending={:?} loops={} last={:?}",
+            self.symbols.verif_dump(),
+            constants.join(","),
+            self.instructions,
+            self.loop_contexts.len(),
+            self.last_instruction
+        )
     }
 
     #[inline]
